@@ -178,3 +178,92 @@ Proof. exact last_bin_repaired. Qed.
 Example C05_single_bin_repaired : out_regions (iq_forward Default w_pile w_pile) = [(4900, 4999)] /\
   length (returned_ids (iq_forward Default w_pile w_pile)) = 1100%nat /\ length (returned_ids (iq_forward HighMem w_pile w_pile)) = 1100%nat.
 Proof. exact single_bin_repaired. Qed.
+
+(* ==== END TO END: the per-read record flow of one chromosome (coq/Accounting.v) ====
+   file --process--> clusters --forward_alignments--> (sub-region, alignments) --assigner (ABSTRACT: `verdict_of region alignment`, None = dropped
+   by a filter)--> one record per (sub-region, alignment), numbered in processing order (`iq_stream`) --records of one read id collected,
+   MultimapResolver.resolve, the loader re-applies the verdict and drops suspended records--> `kept_records chr stream read_id`.
+   For ALL files, read-id assignments, secondary flags, verdict functions and both memory modes; the only hypothesis on the assigner:
+   it never outputs the type `suspended`. *)
+From IQ Require Import Multimap2 Accounting.
+
+(* (1) every alignment that the per-region filters let through gives its read at least one record behind the loader *)
+Theorem C05_read_reported_at_least_once : forall (chrom:Z) (read_of:aln -> Z) (secondary:aln -> bool) (verdict_of:iv -> aln -> option vd),
+  (forall reg a v, verdict_of reg a = Some v -> v_ty v <> Suspended) ->
+  forall (m:mode) (file:list aln), sorted file -> (forall b, In b file -> rs b < re b) ->
+  forall a, In a file -> (forall reg, verdict_of reg a <> None) ->
+  exists r, In r (kept_records chrom (iq_stream chrom read_of secondary verdict_of m file) (read_of a)) /\ rd r = read_of a.
+Proof. exact iq_read_reported_at_least_once. Qed.
+Print Assumptions C05_read_reported_at_least_once.
+
+(* (2) two records of one read behind the loader never have the same key (read, chromosome, start, end, isoform list): an alignment
+   processed in several sub-regions never yields two identical records *)
+Theorem C05_no_identical_records : forall (chrom:Z) (read_of:aln -> Z) (secondary:aln -> bool) (verdict_of:iv -> aln -> option vd),
+  (forall reg a v, verdict_of reg a = Some v -> v_ty v <> Suspended) ->
+  forall (m:mode) (file:list aln) rid, NoDup (map key_of (kept_records chrom (iq_stream chrom read_of secondary verdict_of m file) rid)).
+Proof. exact iq_no_identical_records. Qed.
+Print Assumptions C05_no_identical_records.
+
+(* (3) a uniquely mapped read (one alignment in the file) that passes the filters and is handed over in one sub-region only: exactly one record *)
+Theorem C05_single_alignment_single_region_exactly_once : forall (chrom:Z) (read_of:aln -> Z) (secondary:aln -> bool) (verdict_of:iv -> aln -> option vd),
+  (forall reg a v, verdict_of reg a = Some v -> v_ty v <> Suspended) ->
+  forall (m:mode) (file:list aln), sorted file -> (forall b, In b file -> rs b < re b) ->
+  forall a reg0, In a file -> (forall b, In b file -> read_of b = read_of a -> b = a) -> (forall reg, verdict_of reg a <> None) ->
+  (forall reg v, In (reg, a, v) (iq_emitted verdict_of m file) -> reg = reg0) ->
+  length (kept_records chrom (iq_stream chrom read_of secondary verdict_of m file) (read_of a)) = 1%nat.
+Proof. exact iq_single_alignment_single_region_exactly_once. Qed.
+Print Assumptions C05_single_alignment_single_region_exactly_once.
+
+(* ... and its last hypothesis holds for an alignment that lies inside one sub-region of its cluster *)
+Theorem C05_inside_one_region : forall (verdict_of:iv -> aln -> option vd) (m:mode) (file:list aln),
+  sorted file -> (forall b, In b file -> rs b < re b) ->
+  forall a cl out reg0 alns0, In cl (process file) -> iq_forward m file cl = Some out -> In (reg0, alns0) out -> In a alns0 ->
+  fst reg0 <= rs a -> re a - 1 <= snd reg0 -> forall reg v, In (reg, a, v) (iq_emitted verdict_of m file) -> reg = reg0.
+Proof. exact iq_inside_one_region. Qed.
+Print Assumptions C05_inside_one_region.
+
+(* (4) a uniquely mapped read whose alignment crosses sub-region borders: if all sub-regions report the same isoform list, exactly one
+   record stays (whatever their assignment types) *)
+Theorem C05_split_alignment_kept_once_when_verdicts_equal : forall (chrom:Z) (read_of:aln -> Z) (secondary:aln -> bool) (verdict_of:iv -> aln -> option vd),
+  (forall reg a v, verdict_of reg a = Some v -> v_ty v <> Suspended) ->
+  forall (m:mode) (file:list aln), sorted file -> (forall b, In b file -> rs b < re b) ->
+  forall a, In a file -> (forall b, In b file -> read_of b = read_of a -> b = a) -> (forall reg, verdict_of reg a <> None) ->
+  (forall reg reg' v v', verdict_of reg a = Some v -> verdict_of reg' a = Some v' -> v_isos v = v_isos v') ->
+  length (kept_records chrom (iq_stream chrom read_of secondary verdict_of m file) (read_of a)) = 1%nat.
+Proof. exact iq_single_alignment_kept_once. Qed.
+Print Assumptions C05_split_alignment_kept_once_when_verdicts_equal.
+
+(* the precise condition under which two records of one read BOTH stay (for any save stream `all` of one chromosome with unique assignment
+   ids and no suspended record): both are winners of the best class and their keys differ - for the two copies of one alignment: the two
+   sub-regions' isoform lists differ (the split-region phenomenon of C13).  A read with uninformative records only keeps exactly one. *)
+Theorem C05_two_records_both_kept_iff : forall (chrom:Z) (all:list rec),
+  (forall r, In r all -> chr r = chrom) -> NoDup (map aid all) -> (forall r, In r all -> ty r <> Suspended) ->
+  forall rid x y, group_of all rid = [x; y] -> only_uninformative (group_of all rid) = false ->
+  (length (kept_records chrom all rid) = 2%nat <->
+   winner (group_of all rid) x = true /\ winner (group_of all rid) y = true /\ key_of x <> key_of y).
+Proof. exact two_records_both_kept. Qed.
+Print Assumptions C05_two_records_both_kept_iff.
+
+(* what comes back for a multi-record read is the resolver's output at the retained indices (C08's keep_idx), in stream order *)
+Theorem C05_kept_records_are_resolved : forall (chrom:Z) (all:list rec),
+  (forall r, In r all -> chr r = chrom) -> NoDup (map aid all) -> (forall r, In r all -> ty r <> Suspended) ->
+  forall rid, (1 < length (group_of all rid))%nat ->
+  kept_records chrom all rid = map (nthr (apply_keep (group_of all rid) (keep_idx (group_of all rid))))
+                                   (filter (fun i => memb i (keep_idx (group_of all rid))) (seq 0 (length (group_of all rid)))).
+Proof. exact kept_records_resolved. Qed.
+Print Assumptions C05_kept_records_are_resolved.
+
+(* witnesses at the real constants (w_tail: alignment 1000 = (37900, 39000) crosses the border between (5000,38144) and (38145,72448)) *)
+Example C05_split_alignment_kept_once_example :
+  let all := ex_stream ex_same Default in
+  summary (group_of all 1000) = [(300, (5000, 38144), Unique, false, [7]); (301, (38145, 72448), Unique, false, [7])] /\
+  summary (kept_records 1 all 1000) = [(300, (5000, 38144), Unique, false, [7])] /\
+  summary (kept_records 1 (ex_stream ex_same HighMem) 1000) = [(300, (5000, 38144), Unique, false, [7])].
+Proof. exact split_alignment_kept_once_example. Qed.
+(* REFUTED without the equal-isoform-list hypothesis: both copies stay, re-typed ambiguous and flagged *)
+Example C05_split_alignment_kept_once_refuted :
+  let all := ex_stream ex_differ Default in
+  summary (kept_records 1 all 1000) = [(300, (5000, 38144), Ambiguous, true, [5000]); (301, (38145, 72448), Ambiguous, true, [38145])] /\
+  summary (kept_records 1 all 9999) = [(608, (72449, 72499), Unique, false, [72449])] /\
+  forallb (fun a => negb (length (kept_records 1 all (snd a)) =? 0)%nat) w_tail = true.
+Proof. exact split_alignment_kept_once_refuted. Qed.
